@@ -120,9 +120,11 @@ impl RBig {
     /// This method only make sense for canonicalized ratios.
     #[inline]
     pub fn is_simpler_than(&self, other: &Self) -> bool {
-        (self.denominator() < other.denominator()) // first compare denominator
-            && self.numerator().abs_cmp(other.numerator()).is_le() // then compare numerator
-            && self.sign() > other.sign() // then compare sign
+        self.denominator()
+            .cmp(other.denominator()) // first compare denominator
+            .then_with(|| self.numerator().abs_cmp(other.numerator())) // then compare numerator
+            .then_with(|| other.sign().cmp(&self.sign())) // then compare sign (positive is simpler)
+            .is_lt()
     }
 
     /// Find the simplest rational number in the rounding interval of the [f32] number.
